@@ -217,19 +217,12 @@ def run(ctx):
 
     # ------------------------------------------------------------------ first match / all considered
     rpr = own_method(ctx, RUNTEST, "RunTest", "_run_prepared_result")
-    loops = [n for n in walk_shallow(rpr, include_self=False) if isinstance(n, ast.For) and dotted(n.iter) == "self.handlers"]
-    ok = False
-    if len(loops) == 1:
-        lp = loops[0]
-        tests = [n for n in lp.body if isinstance(n, ast.If)]
-        if len(tests) == 1 and len(lp.body) == 1 and isinstance(tests[0].test, ast.Call) and dotted(tests[0].test.func) == "isinstance" and isinstance(lp.target, ast.Tuple):
-            cls_v, h_v = (dotted(e) for e in lp.target.elts)
-            t = tests[0]
-            calls = [c for b in t.body for c in walk_shallow(b) if isinstance(c, ast.Call) and dotted(c.func) == h_v]
-            ok = dotted(t.test.args[1]) == cls_v and len(calls) == 1 and isinstance(t.body[-1], ast.Break) and not t.orelse
-    ctx.check("R-FIRST-MATCH", "dispatch: for (class, handler) in self.handlers: if isinstance(e, class): handler(...); break", rpr, ok,
-              "the dispatch no longer tries self.handlers in list order stopping at the first isinstance match (user-inserted handlers would lose precedence)",
-              construct=f"{Q}._run_prepared_result::first-match")
+    # decided on the abstract run with a symbolic three-entry table (any code shape: loop, helper, two passes)
+    for label, suffix, ok, msg, r in runmodel.dispatch_verdicts(ctx, rt):
+        ctx.check("R-FIRST-MATCH", label, rpr, ok,
+                  "the dispatch does not report through the first entry of self.handlers whose class matches (user-inserted handlers would lose precedence): " + msg,
+                  path=runmodel.fmt_log(r.state) if r is not None else None, construct=f"{Q}._run_prepared_result::{suffix}")
+    ctx.floor("R-FIRST-MATCH", 20, "table relations")
     init_rt = own_method(ctx, RUNTEST, "RunTest", "__init__")
     ok = any(isinstance(n, ast.Assign) and dotted(n.targets[0]) == "self.handlers" and "handlers" in norm(n.value) and "sorted" not in norm(n.value) and "reversed" not in norm(n.value)
              for n in walk_shallow(init_rt, include_self=False))
